@@ -30,3 +30,9 @@ Definition w_k2b : spec :=
     [mkP (Str.s "N") [] [Str.s "1"; Str.s "2"] (LT [])]
     [mkS (Str.s "sim_N.1") (Str.s "clash") [] (Str.s "echo clash") [] [];
      mkS (Str.s "sim") (Str.s "step") [] (Str.s "echo $(N)") [] []].
+
+(** a value that is itself token text (K4b of C09): rows 0 and 1 agree on A, the
+    only parameter the text "$(A)" uses, yet expand it differently *)
+Definition w_k4b_params : list param :=
+  [mkP (Str.s "A") [] [Str.s "$(B)"; Str.s "$(B)"] (LT []);
+   mkP (Str.s "B") [] [Str.s "x"; Str.s "y"] (LT [])].
